@@ -489,7 +489,25 @@ func checkHistory(c histCase) (fl *harness.Failure, edited int) {
 	lbp, rbp := gen.FromNode(l), gen.FromNode(r)
 	lt, rtx := tu.Text(l), tu.Text(r)
 	show := func() string { return fmt.Sprintf("left:\n%sright:\n%s", lt, rtx) }
-	a, errA := gedcom.MergeNodes(l, r, gedcom.NewDocument())
+	dest := gedcom.NewDocument()
+	a, errA := gedcom.MergeNodes(l, r, dest)
+	if errA == nil {
+		// the result of one merge as the input of the next, into the SAME destination document:
+		// it is an input like any other - not modified, and the new result shares nothing with it
+		before := tu.Text(a)
+		again, errAgain := gedcom.MergeNodes(a, r, dest)
+		if errAgain == nil {
+			if tu.Text(a) != before {
+				return harness.Failf("chained-merge-modifies-input", "MergeNodes(m, r, d), where m is the result of an earlier MergeNodes(..., d) into the same document, modified m:\n%s--- became\n%s", before, tu.Text(a)), edited
+			}
+			ida := tu.NewIdentity(a)
+			for _, n := range tu.All(again) {
+				if ida.Has(n) {
+					return harness.Failf("chained-merge-shares-node", "the result of MergeNodes(m, r, d) shares %s with its input m (the result of an earlier merge into the same document d)", tu.Describe(n)), edited
+				}
+			}
+		}
+	}
 	sa := texts(gedcom.MergeNodeSlices(l.Nodes(), r.Nodes(), gedcom.NewDocument(), gedcom.EqualityMergeFunction))
 	var selfText [2]string
 	var selfErr [2]error
@@ -531,7 +549,7 @@ func checkHistory(c histCase) (fl *harness.Failure, edited int) {
 
 func TestCheckMergeHistory(t *testing.T) {
 	s := harness.NewSub("merge-after-history",
-		"pairs of trees with the same root tag (as in merge-nodes-and-slices) that are first merged and compared node by node (1..2 rounds), then edited through the public API (1..4 edits: AddNode, DeleteNode, SetNodes(nil), a DATE or PLAC child replaced, the children re-added as new nodes; biased to the children that RESI/EVEN/BIRT derive their equality from), comparing again after every edit; oracle: MergeNodes, MergeNodeSlices and the self-merge of the live trees give exactly the text that the same trees built from nothing give; non-trivial = at least one edit changed a tree with >= 3 nodes")
+		"pairs of trees with the same root tag (as in merge-nodes-and-slices) that are first merged and compared node by node (1..2 rounds), then edited through the public API (1..4 edits: AddNode, DeleteNode, SetNodes(nil), a DATE or PLAC child replaced, the children re-added as new nodes; biased to the children that RESI/EVEN/BIRT derive their equality from), comparing again after every edit; oracle: MergeNodes, MergeNodeSlices and the self-merge of the live trees give exactly the text that the same trees built from nothing give; the result of a merge, merged again into the same destination document, is neither modified nor shared; non-trivial = at least one edit changed a tree with >= 3 nodes")
 	s.Rapid(t, harness.Share(harness.Pick(30000, 3000000)), 91, func(rt *rapid.T) {
 		l := gen.EqTree(gen.EqTreeOpts{MaxNodes: 14, Roles: false}).Draw(rt, "left")
 		var r *gen.NodeBP
